@@ -2,7 +2,7 @@
    value (quoted, with spaces and any characters inside); extent lines decode to their
    fields (checked on the writer's shapes). *)
 From Coq Require Import String ZArith List Bool Lia.
-From DH Require Import Base.Plan Model.MetaCodec Model.MetaVmdk.
+From DH Require Import Base.Plan Gen.MetaVmdkTables Model.MetaCodec Model.MetaVmdk.
 Import ListNotations.
 Open Scope list_scope.
 Open Scope Z_scope.
@@ -158,3 +158,12 @@ Lemma every_type_accepted :
                     | _ => false
                     end) EXTENT_TYPES = true.
 Proof. vm_compute. reflexivity. Qed.
+
+(* every extent type VMDK.__init__ dispatches on is a type the grammar accepts (generated lists) *)
+Lemma wired_types_in_grammar :
+  forallb (fun t => existsb (list_eqb t) EXTENT_TYPES) (meta_wired_sparse_types ++ meta_wired_raw_types) = true.
+Proof. vm_compute. reflexivity. Qed.
+
+(* the line-prefix test of DiskDescriptor.parse and the grammar agree on the access modes *)
+Lemma prefixes_match_access : extent_prefixes = map (fun a => a ++ [32]) ACCESS_MODES.
+Proof. reflexivity. Qed.
